@@ -172,7 +172,11 @@ impl RADAU {
         }
 
         // hmax and hmin
-        let hmax = self.max_step.unwrap_or_else(|| (xend - x).abs());
+        let mut hmax = self.max_step.unwrap_or_else(|| (xend - x).abs());
+        // Never larger than the interval: keeps the first step inside [x0, xend]
+        if hmax.abs() > (xend - x).abs() {
+            hmax = (xend - x).abs();
+        }
         let hmin = self.min_step.unwrap_or(0.0);
 
         // Max newton iterations
